@@ -1,0 +1,27 @@
+//go:build verif
+
+// Contracts for package blockchain (block sync), checked by /verif/govc (comment-only; see /verif/DESIGN.md).
+package blockchain
+
+// ---------------------------------------------------------------- C01: block sync adopts only committed blocks
+// The processor context verifies a commit for exactly the block id, height and chain id it was given,
+// against the current validator set of its state.
+//@ func (pc pContext) verifyCommit(chainID string, blockID types.BlockID, height uint64, commit *types.Commit) (err error)
+//@   for C01
+//@   modifies *
+//@   opt assumecallreqs
+//@   atcall ValidatorSet.VerifyCommit requires [exactlyWhatWasAsked] vs == pc.state.Validators && chainID == outer(chainID) && blockID == outer(blockID) && height == outer(height) && commit == outer(commit)
+
+// The processor saves and applies the first of two queued blocks only after the second block's last
+// commit verified for the first block's id (its hash and the header of its own part set) and height.
+//@ trusted func (c processorContext) verifyCommit(chainID string, blockID types.BlockID, height uint64, commit *types.Commit) (err error)
+//@ trusted func (c processorContext) saveBlock(block *types.Block, blockParts *types.PartSet, seenCommit *types.Commit)
+//@ trusted func (c processorContext) applyBlock(blockID types.BlockID, block *types.Block) (err error)
+//@ func (state *pcState) handle(event Event) (r Event, err error)
+//@   for C01
+//@   requires state != nil
+//@   modifies *
+//@   opt assumecallreqs
+//@   atcall processorContext.verifyCommit requires [commitOfSecondForFirst] blockID == firstID && commit == types.lastCommitOf(second) && height == types.blockHeightOf(first)
+//@   atcall processorContext.saveBlock requires [savedOnlyAfterVerification] outer(err) == nil && block == first
+//@   atcall processorContext.applyBlock requires [appliedOnlyAfterVerification] outer(err) == nil && block == first && blockID == firstID
